@@ -21,6 +21,55 @@ impl Wake for CountWaker {
     }
 }
 
+/// Waker with a wake-up counter whose clone() can run a one-shot action: cloning the waker is the one
+/// externally visible point inside a channel's poll, so another thread's operation can be issued "during" the poll.
+pub struct Hook {
+    wakes: AtomicU32,
+    gate: std::sync::Mutex<Option<Box<dyn FnOnce() + Send>>>,
+}
+impl Hook {
+    fn new() -> Arc<Hook> {
+        Arc::new(Hook { wakes: AtomicU32::new(0), gate: std::sync::Mutex::new(None) })
+    }
+    fn fire(&self) {
+        let g = self.gate.lock().unwrap().take();
+        if let Some(g) = g {
+            g()
+        }
+    }
+}
+mod rawhook {
+    use super::Hook;
+    use std::sync::Arc;
+    use std::sync::atomic::Ordering;
+    use std::task::{RawWaker, RawWakerVTable, Waker};
+    static VTABLE: RawWakerVTable = RawWakerVTable::new(clone, wake, wake_by_ref, drop_raw);
+    fn raw(h: Arc<Hook>) -> RawWaker {
+        RawWaker::new(Arc::into_raw(h) as *const (), &VTABLE)
+    }
+    unsafe fn clone(p: *const ()) -> RawWaker {
+        let h = unsafe { Arc::from_raw(p as *const Hook) };
+        h.fire();
+        let c = h.clone();
+        std::mem::forget(h);
+        raw(c)
+    }
+    unsafe fn wake(p: *const ()) {
+        let h = unsafe { Arc::from_raw(p as *const Hook) };
+        h.wakes.fetch_add(1, Ordering::SeqCst);
+    }
+    unsafe fn wake_by_ref(p: *const ()) {
+        let h = unsafe { &*(p as *const Hook) };
+        h.wakes.fetch_add(1, Ordering::SeqCst);
+    }
+    unsafe fn drop_raw(p: *const ()) {
+        drop(unsafe { Arc::from_raw(p as *const Hook) });
+    }
+    pub fn waker(h: Arc<Hook>) -> Waker {
+        unsafe { Waker::from_raw(raw(h)) }
+    }
+}
+
 enum Chan {
     Oneshot(Option<OneshotSender<u32>>, Pin<Box<OneshotReceiver<u32>>>),
     Mpsc(Vec<MpscSender<u32>>, MpscReceiver<u32>),
@@ -29,7 +78,7 @@ enum Chan {
 
 pub struct ChanModel {
     ch: Chan,
-    wakers: Vec<Arc<CountWaker>>, // index = waker id
+    wakers: Vec<Arc<Hook>>, // index = waker id
     received: Vec<u32>,
     registered: u32,
 }
@@ -50,7 +99,7 @@ impl ChanModel {
                 Chan::Notif(vec![s], Box::pin(r))
             }
         };
-        ChanModel { ch, wakers: (0..4).map(|_| Arc::new(CountWaker(AtomicU32::new(0)))).collect(), received: vec![], registered: 0 }
+        ChanModel { ch, wakers: (0..4).map(|_| Hook::new()).collect(), received: vec![], registered: 0 }
     }
 }
 
@@ -100,9 +149,78 @@ impl Model for ChanModel {
                 }
                 json!({"res": "Ok"})
             }
+            "PollRacing" => {
+                // another thread's send / drop of the last sender is issued from inside poll (at the waker clone)
+                let k = op["k"].as_u64().unwrap() as usize;
+                let prev = op["prevwaker"].as_u64().unwrap_or(0) as usize;
+                let v = op["v"].as_u64().unwrap() as u32;
+                let send = op["other"] == "send";
+                let hook = self.wakers[k].clone();
+                let (go_tx, go_rx) = std::sync::mpsc::channel::<()>();
+                let (done_tx, done_rx) = std::sync::mpsc::channel::<()>();
+                *hook.gate.lock().unwrap() = Some(Box::new(move || {
+                    let _ = go_tx.send(());
+                    // in correct code the other thread is blocked by the critical section of the poll we are in
+                    let _ = done_rx.recv_timeout(std::time::Duration::from_millis(150));
+                }));
+                let waker = rawhook::waker(hook.clone());
+                let mut cx = Context::from_waker(&waker);
+                let r: Poll<Result<u32, ()>> = match &mut self.ch {
+                    Chan::Oneshot(s, r) => {
+                        let snd = s.take();
+                        std::thread::scope(|sc| {
+                            sc.spawn(move || {
+                                let _ = go_rx.recv();
+                                if let Some(snd) = snd { if send { snd.send(v) } else { drop(snd) } }
+                                let _ = done_tx.send(());
+                            });
+                            let r = r.as_mut().poll(&mut cx).map(|x| x.map_err(|_| ()));
+                            hook.fire();
+                            r
+                        })
+                    }
+                    Chan::Mpsc(s, r) => {
+                        let dropped = if send { None } else { s.pop() };
+                        let snd = s.first();
+                        std::thread::scope(|sc| {
+                            sc.spawn(move || {
+                                let _ = go_rx.recv();
+                                if send { if let Some(snd) = snd { let _ = snd.send(v); } } else { drop(dropped) }
+                                let _ = done_tx.send(());
+                            });
+                            let mut f = std::pin::pin!(r.receive());
+                            let r = f.as_mut().poll(&mut cx).map(|x| x.ok_or(()));
+                            hook.fire();
+                            r
+                        })
+                    }
+                    Chan::Notif(s, r) => {
+                        let dropped = if send { None } else { s.pop() };
+                        let snd = s.first();
+                        std::thread::scope(|sc| {
+                            sc.spawn(move || {
+                                let _ = go_rx.recv();
+                                if send { if let Some(snd) = snd { snd.notify(); } } else { drop(dropped) }
+                                let _ = done_tx.send(());
+                            });
+                            let r = r.as_mut().poll(&mut cx).map(|x| x.map(|_| 1).map_err(|_| ()));
+                            hook.fire();
+                            r
+                        })
+                    }
+                };
+                let res = match r {
+                    Poll::Ready(Ok(v)) => { self.received.push(v); "Ready" }
+                    Poll::Ready(Err(())) => "Disconnected",
+                    Poll::Pending => "Pending",
+                };
+                let woken = self.wakers[k].wakes.load(Ordering::SeqCst);
+                let prevw = if prev != 0 && prev != k { self.wakers[prev].wakes.load(Ordering::SeqCst) } else { 0 };
+                json!({"res": res, "woken": woken, "prev": prevw})
+            }
             "Poll" => {
                 let k = op["k"].as_u64().unwrap() as usize;
-                let waker = Waker::from(self.wakers[k].clone());
+                let waker = rawhook::waker(self.wakers[k].clone());
                 let mut cx = Context::from_waker(&waker);
                 let r: Poll<Result<u32, ()>> = match &mut self.ch {
                     Chan::Oneshot(_, r) => r.as_mut().poll(&mut cx).map(|x| x.map_err(|_| ())),
@@ -130,11 +248,15 @@ impl Model for ChanModel {
 
     fn project(&self) -> Value {
         // only what is observable from outside: wake-up counts per waker and the received values
-        let woken: Vec<u32> = (1..=2).map(|k| self.wakers[k].0.load(Ordering::SeqCst)).collect();
+        let woken: Vec<u32> = (1..=2).map(|k| self.wakers[k].wakes.load(Ordering::SeqCst)).collect();
         json!({"woken": woken, "received": self.received})
     }
 
     fn compare_state(&self, expected: &Value, got: &Value) -> Option<String> {
+        if expected["raced"] == true {
+            // the racing pair may take either order (compared through the operation's result)
+            return None;
+        }
         crate::replay::compare(&json!({"woken": expected["woken"], "received": expected["received"]}), got, "state")
     }
 }
